@@ -879,6 +879,11 @@ class Epoch(object):
         """
 
         if isinstance(year, (int, float)) and isinstance(doy, (int, float)):
+            # The day of year must belong to that year (1582 had 355 days)
+            ndays = 355 if year == 1582 else (366 if Epoch.is_leap(year)
+                                              else 365)
+            if doy < 1 or doy >= ndays + 1:
+                raise ValueError("Invalid input values")
             frac = float(doy % 1)
             doy = int(doy)
             if year > 1582:  # datetime uses the Gregorian calendar
